@@ -252,3 +252,162 @@ def diff_tables(c, rule, site, got_rows, want_rows, what, only=None, fields=("to
                 det = "%s: code emits `%s` → %s %s; reference `%s` → %s %s" % (what, " ".join(a["tokens"]), a["outcome"], a["effects"] if "effects" in fields else "", " ".join(b["tokens"]), b["outcome"], b["effects"] if "effects" in fields else "")
             c.ob(rule, site, key or "(unconditional)", same, det, facts={"tokens": a["tokens"], "outcome": a["outcome"]} if n <= 3 else None)
     return n
+
+
+# ------------------------------------------------------------------ per-element tables of joined collections
+def _joins(parts):
+    for p in parts:
+        if p[0] == "join":
+            yield p
+        elif p[0] == "h" and isinstance(p[1], dict) and p[1].get("kind") == "elem-of-mapped" and isinstance(p[1].get("mapped"), dict):
+            # the one element of a one-element collection: same per-element table
+            yield ("join", p[1]["mapped"], "")
+        elif p[0] == "sub" and isinstance(p[1], dict) and emit.is_str(p[1]):
+            for q in _joins(p[1]["parts"]):
+                yield q
+
+
+def _piece(v, sep):
+    """text of what one element contributes; None for an element whose evaluation fails (those are rows of their own)"""
+    if isinstance(v, dict):
+        k = v.get("v")
+        if k == "ok":
+            return _piece(v["x"], sep)
+        if k in ("err", "panic"):
+            return None
+        if k == "some":
+            return _piece(v["x"], sep)
+        if k == "none":
+            return "∅"
+        if k == "str":
+            t = emit.canon_parts(v["parts"])
+            return t if (t or sep) else "∅"
+        if k == "list" and not v.get("items"):
+            return "∅"
+    return "{%s}" % emit.canon(v)
+
+
+def element_tables(rows):
+    """For every successful row of a table: one sub-table per joined collection in the emitted text, giving for each case of
+    an element what it contributes (the canonical text of a row only says *that* a collection is joined)."""
+    out = []
+    # element cases on which the whole function fails (an element-wise error that is passed on): what such an element would
+    # have contributed to a later collection is immaterial
+    fails = [r["cond"].replace("∃", "") for r in rows if "∃" in (r["cond"] or "") and str(r["outcome"]).startswith(("err", "panic"))]
+    for r in rows:
+        if "∃" in (r["cond"] or "") or not str(r["outcome"]).startswith(("ok", "ret")):
+            continue
+        for i, j in enumerate(_joins(r["st"].buf)):
+            mv = j[1]
+            if not (isinstance(mv, dict) and mv.get("v") == "mapped"):
+                continue
+            sub = []
+            for conds, v in mv["elems"]:
+                pc = _piece(v, j[2])
+                if pc is None:
+                    fails.append(emit.canon_conds(conds))
+                    continue
+                sub.append(dict(cond=emit.canon_conds(conds), tokens=[pc], outcome="piece", effects=[]))
+            out.append(dict(row=r["cond"], index=i, sep=j[2], of=emit.canon(mv.get("of")), rows=sub))
+    for e_ in out:
+        e_["fails"] = sorted(set(fails))
+    return out
+
+
+def _atoms(key):
+    out = {}
+    for a in key.split(" ∧ ") if key else []:
+        m = _re.match(r"^(.*?)(∈|=)(.*)$", a)
+        if m:
+            out.setdefault(m.group(1), set()).add(m.group(3))
+    return out
+
+
+def _expand_feasible(rows):
+    """expand(), with several conditions on one subject intersected (a path that first sees `x ∈ {A, B}` and later `x ∈ {B}`
+    is the case x = B; one that sees `{A}` and then `{B}` cannot happen)."""
+    out = {}
+    for r in rows:
+        per = {}
+        order = []
+        feasible = True
+        for a in (r["cond"].split(" ∧ ") if r["cond"] else []):
+            m = _re.match(r"^(.*)∈\{(.*)\}$", a)
+            if m:
+                subj, alts = norm_names(m.group(1)), set(split_top(m.group(2)))
+                if subj in per:
+                    cur = per[subj]
+                    if "_" in alts and "_" in cur:
+                        per[subj] = cur | alts
+                    elif "_" in alts:
+                        pass  # the earlier, narrower condition stands
+                    elif "_" in cur:
+                        per[subj] = alts
+                    else:
+                        per[subj] = cur & alts
+                        if not per[subj]:
+                            feasible = False
+                else:
+                    per[subj] = alts
+                    order.append(("in", subj))
+            else:
+                order.append(("atom", norm_names(a)))
+        if not feasible:
+            continue
+        choices = [sorted("%s∈%s" % (x[1], v) for v in per[x[1]]) if x[0] == "in" else [x[1]] for x in order]
+        for combo in itertools.product(*choices) if choices else [()]:
+            key = " ∧ ".join(combo)
+            out.setdefault(key, dict(tokens=[norm_names(t) for t in r["tokens"]], outcome=norm_names(r["outcome"]), effects=[norm_names(e) for e in r["effects"]]))
+    return out
+
+
+def equiv_tables(c, rule, site, got_rows, want_rows, what, got_fails=(), want_fails=()):
+    """Two case tables describe the same function when any two rows that can apply to the same input give the same result,
+    and every row of one has such a partner in the other: insensitive to how finely either table splits its cases."""
+    g, w = _expand_feasible(got_rows), _expand_feasible(want_rows)
+
+    def lits(tab):
+        L = {}
+        for k in tab:
+            for s_, vs in _atoms(k).items():
+                L.setdefault(s_, set()).update(v for v in vs if v != "_")
+        return L
+
+    Lg, Lw = lits(g), lits(w)
+
+    def compatible(ka, La, kb, Lb):
+        A, B = _atoms(ka), _atoms(kb)
+        for s_ in set(A) & set(B):
+            for va in A[s_]:
+                for vb in B[s_]:
+                    if va == vb:
+                        continue
+                    if va == "_" and vb not in La.get(s_, ()):
+                        continue
+                    if vb == "_" and va not in Lb.get(s_, ()):
+                        continue
+                    return False
+        return True
+
+    fg = _expand_feasible([dict(cond=f_, tokens=[], outcome="fails", effects=[]) for f_ in got_fails])
+    fw = _expand_feasible([dict(cond=f_, tokens=[], outcome="fails", effects=[]) for f_ in want_fails])
+    n = 0
+    for ka, ra in sorted(g.items()):
+        partners = [(kb, rb) for kb, rb in w.items() if compatible(ka, Lg, kb, Lw)]
+        n += 1
+        if not partners and any(compatible(ka, Lg, kf, lits(fw)) for kf in fw):
+            c.ob(rule, site, ka or "(every element)", True, "%s: contributes `%s`; the reference fails on such an element (the refused cases are compared by C12)" % (what, " ".join(ra["tokens"])), nontrivial=False)
+            continue
+        if not partners:
+            c.ob(rule, site, ka or "(every element)", False, "%s: the code has a case [%s] contributing `%s` that the reference does not know" % (what, ka, " ".join(ra["tokens"])))
+            continue
+        bad = [(kb, rb) for kb, rb in partners if rb["tokens"] != ra["tokens"]]
+        c.ob(rule, site, ka or "(every element)", not bad, "%s: contributes `%s`" % (what, " ".join(ra["tokens"])) + ("; the reference contributes `%s` for [%s]" % (" ".join(bad[0][1]["tokens"]), bad[0][0]) if bad else ""))
+    for kb, rb in sorted(w.items()):
+        if not any(compatible(ka, Lg, kb, Lw) for ka in g):
+            n += 1
+            if any(compatible(kf, lits(fg), kb, Lw) for kf in fg):
+                c.ob(rule, site, kb or "(every element)", True, "%s: the code fails on such an element, the reference would contribute `%s` (the refused cases are compared by C12)" % (what, " ".join(rb["tokens"])), nontrivial=False)
+                continue
+            c.ob(rule, site, kb or "(every element)", False, "%s: the reference has a case [%s] contributing `%s` but the code has none" % (what, kb, " ".join(rb["tokens"])))
+    return n
